@@ -1611,6 +1611,7 @@ chkpnt(void)
 fin:
 	/* all checkpoints cleared hopefully */
 	ichkpnts = 0U;
+	NEDTRIE_INIT(&chkpntr);
 	return rc;
 }
 
